@@ -80,5 +80,23 @@ let () =
           end);
          if k > 0 then List.iter (fun a -> gen (k - 1) (a :: acc)) alpha in
        gen count []
+   | "exh2" ->
+       (* the region where the matrix is not totally monotone: two widths, no per-line
+          penalty, a short-last-line penalty; fragment lists up to [count] over 6 letters *)
+       let alpha = [ (0,0,0); (1,1,0); (2,1,0); (3,1,0); (1,0,0); (2,0,1) ] in
+       let pens = [ (0,0,0,1,0); (0,1,0,1,0); (0,0,1,100,0); (0,50,4,100,0); (0,1,2,7,5); (1,0,0,100,0); (0,5,27,15499,0); (0,2123,0,1261,0);
+                    (0,0,4,34,0); (0,17,0,1,0); (0,1,4,4023,0); (0,980,26,9,0) ] in
+       let lwl = [ [4;1]; [5;1]; [7;2]; [7;1]; [9;2]; [12;2]; [13;1]; [19;2]; [22;2]; [3;0]; [6;0]; [2;5]; [4;4]; [6;3] ] in
+       let idx = ref 0 in
+       let rec gen k acc =
+         (if List.length acc >= 3 then begin
+            incr idx;
+            if !idx mod 16 = seed then begin
+              let fs = List.rev acc in
+              if pre fs then List.iter (fun lws -> List.iter (fun pen -> incr total; check fs lws pen) pens) lwl
+            end
+          end);
+         if k > 0 then List.iter (fun a -> gen (k - 1) (a :: acc)) alpha in
+       gen count []
    | _ -> failwith "mode");
   Printf.printf "DONE\tcases=%d\tfound=%d\n" !total !found
